@@ -121,6 +121,19 @@ func NewEngineTargetSplit(obs *Obs, groups []string) (*Target, error) {
 		return nil, err
 	}
 	defer t.RB.RemoveRules([]string{"zz-victim", "never-there"})
+	if len(groups[0])%2 == 0 {
+		// every other time: a rule of the first group is removed and the very same first text is built
+		// again in full - which has to bring the rule back
+		for n := range t.RB.Kc.RuleEntities {
+			if n != "zz-victim" {
+				t.RB.RemoveRules([]string{n})
+				break
+			}
+		}
+		if err := CompileLocked(func() error { return t.RB.BuildRuleFromString(groups[0] + victimRule) }); err != nil {
+			return nil, err
+		}
+	}
 	for _, g := range groups[1:] {
 		g := g
 		if err := CompileLocked(func() error { return t.RB.BuildRuleWithIncremental(g) }); err != nil {
